@@ -325,7 +325,7 @@ impl LefImporter {
     fn vp_boundary_layer(&mut self) -> (r: LayoutResult<LayerKey>) ensures final(self).dist_scale == old(self).dist_scale, final(self).ctx == old(self).ctx { unimplemented!() }
 //@ fn layout21raw/src/lef.rs :: impl LefImporter :: fn import_abstract
 //@   ret r
-//@   sub R5 /let _layer = \{[\s\S]*?\n            \};/ => let _layer = self.vp_boundary_layer()?;
+//@   sub R5 @c7395c62 /let _layer = \{[\s\S]*?\n            \};/ => let _layer = self.vp_boundary_layer()?;
 //@   sub R6 /for lefpin in &lefmacro\.pins \{/ => for lefpin in lefmacro.pins.iter() {
 //@   sub R6 /for lefobs in &lefmacro\.obs \{/ => for lefobs in lefmacro.obs.iter() {
 //@   sub R6 /match abs\.blockages\.entry\(layerkey\) \{\s*Entry::Occupied\(mut e\) => e\.get_mut\(\)\.extend\(shapes\),\s*Entry::Vacant\(e\) => \{\s*e\.insert\(shapes\);\s*\}\s*\}/ => vp_entry_extend(&mut abs.blockages, layerkey, shapes);
